@@ -23,7 +23,7 @@ func init() {
 			"(R4) first-wins: under SET_IF_NOT_EXISTS the only writer is setNewKV under a failed lookup; concatenation under APPEND puts the existing value first (both in Merge and in the sequential append); " +
 			"(R5) every baseStore method that can introduce a DELETE_PREFIX operation is overridden by PartialKV so that the prefix is also recorded in DeletedPrefixes; " +
 			"(R6) Save writes exactly the StoreData fields Load restores; " +
-			"(R7) the merge combiner and the sequential combiner of each MIN/MAX/ADD (policy, value type) classify as the same selection (min, max or sum) using only the orderings of their two operands.",
+			"(R7) the merge combiner and the sequential combiner of each MIN/MAX/ADD (policy, value type) classify as the same selection (min, max or sum) using only the orderings of their two operands. (R8) in every loop of Merge over the partial's keys an iteration ends with that key written into the full store or with an error; a key is left untouched only when a lookup found it already present (first-wins), so squashing never loses a key that sequential execution holds.",
 		NotCovered:  "Arithmetic of the merged values (sums, decimal truncation, float formatting), arbitrary segment cuts and interleavings: numeric equality of merged and sequential values is not decided. SET_SUM prefix algebra is only checked for switch coverage.",
 		Assumptions: []string{"enumerator names of the generated Operation_Type / UpdatePolicy enums are the schema", "big.Int.Cmp / decimal.Cmp are three-way compares"},
 	})
@@ -1168,6 +1168,34 @@ func checkSaveLoadSymmetry(p *core.Prog, r *core.Report, rule string) {
 		}
 		r.Check(strings.Join(got, ",") == strings.Join(pr.wantLd, ",") && okMap, rule, pr.typ+".Load/fields",
 			fmt.Sprintf("%s.Load restores {%s} from the unmarshalled snapshot (each saved field is read back)", pr.typ, strings.Join(pr.wantLd, ",")), fmt.Sprintf("restores %v", restored), p.Pos(load.Pos()))
+		// ... on every path that reports success: no early return between decoding and the last assignment
+		for _, fname := range pr.wantLd {
+			fname := fname
+			isRestore := func(in ssa.Instruction) bool {
+				st, ok := in.(*ssa.Store)
+				if !ok {
+					return false
+				}
+				fa, ok := st.Addr.(*ssa.FieldAddr)
+				if !ok || core.FieldOfAddr(fa).Name() != fname {
+					return false
+				}
+				if fname == "DeletedPrefixes" {
+					return hasFieldNamed(core.Trace(st.Val, 0), "DeletePrefixes")
+				}
+				return true
+			}
+			q := core.PathQuery{Fn: load, CutInstr: isRestore}
+			hit, reach := q.CanReach(nil, func(in ssa.Instruction) bool {
+				rt, ok := in.(*ssa.Return)
+				return ok && core.ReturnsNilError(rt)
+			})
+			where := ""
+			if reach {
+				where = p.Pos(hit.Pos())
+			}
+			r.Check(!reach, rule, pr.typ+".Load/"+fname+"/every-path", fmt.Sprintf("every path on which %s.Load reports success has restored %s (a snapshot holding only deleted prefixes, or no key at all, is restored like any other)", pr.typ, fname), "a success return is reachable without restoring the field "+where, p.Pos(load.Pos()))
+		}
 		// both use the store's marshaller
 		for _, fn := range []*ssa.Function{save, load} {
 			usesOwn := false
